@@ -183,6 +183,7 @@ func (vc *VCache) loadVersionMapping(ancestors []dvid.VersionID, dataname dvid.I
 	timedLog := dvid.NewTimeLog()
 
 	v := ancestors[0]
+	dist := getDistFromRoot(ancestors)
 	var splits []proto.SupervoxelSplitOp
 	numMsgs := map[string]uint64{
 		"Mapping":         0,
@@ -257,7 +258,10 @@ func (vc *VCache) loadVersionMapping(ancestors []dvid.VersionID, dataname dvid.I
 				continue
 			}
 			// We don't set op.Target to 0 because it could be the ID of a supervoxel.
-			vc.setMapping(v, op.Newlabel, 0)
+			// The same holds for op.Newlabel (see addRenumberToMapping).
+			if mapped, found := vc.mapLabel(op.Newlabel, dist); !found || mapped == 0 {
+				vc.setMapping(v, op.Newlabel, 0)
+			}
 
 		default:
 		}
